@@ -200,7 +200,12 @@ class Interp:
                 if op in ("==", "!="):
                     r = a[1] == b[1]
                     return r if op == "==" else not r
-                self.broken(e, "order comparison with NEIGHBOUR_OUTSIDE")
+                # NEIGHBOUR_OUTSIDE is the largest 32-bit value: every real subgrid index is smaller
+                if a[1] == b[1]:
+                    return op in ("<=", ">=")
+                a_is_out = a[1] == "OUT"
+                lt = not a_is_out          # a < b  iff  b is OUT
+                return {"<": lt, "<=": lt, ">": not lt, ">=": not lt}[op]
             if op == "==":
                 return a[1] == b[1]
             if op == "!=":
